@@ -247,3 +247,36 @@ func VfC09_NewInt() {
 		vfAssert("C09.newint.value", back.X.Cmp(big.NewInt(v)) == 0)
 	}
 }
+
+// VfC09_PrintUpdatePrint: the literal follows the value.  A constant is
+// printed, its value is updated (in place through the math/big API, or by
+// assigning a new big.Int; the new value is symbolic as well), and printed
+// again: the second literal parses back to the new value.
+//
+//vf:unwind 400
+//vf:shards 4
+func VfC09_PrintUpdatePrint() {
+	typ := types.I32
+	a, b := int64(int32(vfInt("a"))), int64(int32(vfInt("b")))
+	// keep the decimal digit chains short: small magnitudes, any sign
+	vfAssume(vfAnd(vfAnd(a > -100, a < 100), vfAnd(b > -100, b < 100)))
+	c := NewInt(typ, a)
+	first := c.Ident()
+	vfObserveStr("first", first)
+	switch vfChoice("update", 3) {
+	case 0:
+		c.X.SetInt64(b) // in place
+	case 1:
+		c.X.Add(c.X, big.NewInt(b-a)) // in place, through arithmetic
+	default:
+		c.X = big.NewInt(b)
+	}
+	second := c.Ident()
+	vfReach("C09.print-update-print")
+	vfObserveStr("second", second)
+	back, err := NewIntFromString(typ, second)
+	vfAssert("C09.print-update-print.accepted", err == nil)
+	if err == nil {
+		vfAssert("C09.print-update-print.new-value", back.X.Cmp(big.NewInt(b)) == 0)
+	}
+}
